@@ -153,6 +153,11 @@ example : LW (pathComps (clean b!"/w/dest")) ({ fs := exFS } : World) := by
       · decide
       · cases h
       · cases h
-  exact ⟨⟨rfl, hns, hfresh, by decide, hnames, htree⟩, hchain⟩
+  have hdirone : DirOne exFS := by
+    intro p q i n hp hq _ _
+    rcases hcases p i hp with ⟨rfl, rfl⟩ | ⟨rfl, rfl⟩ | ⟨rfl, rfl⟩ | ⟨rfl, rfl⟩ <;>
+      rcases hcases q _ hq with ⟨rfl, h⟩ | ⟨rfl, h⟩ | ⟨rfl, h⟩ | ⟨rfl, h⟩ <;>
+      first | rfl | exact absurd h (by decide)
+  exact ⟨⟨rfl, hns, hfresh, by decide, hnames, htree, hdirone⟩, hchain⟩
 
 end GA.C02
